@@ -5,6 +5,7 @@
    replace_use fixes 2d6a9c1, e4350a7, 283ca09 = /repo now); cfg_no_X = everything repaired but X. *)
 From PV Require Import Lib.Py Lib.Json Spec.IRSyntax Model.IrJson Proofs.C16_irjson Gen.c16_corpus.
 From PV Require Import Proofs.C16_rd_scope Proofs.C16_rd_patch Proofs.C16_rd_func.
+From PV Require Import Proofs.C16_rd_wf Proofs.C16_rd_sub Proofs.C16_rd_mod Proofs.C16_roundtrip.
 From Coq Require Import String.
 
 (* ---- the code as it is violates the property: one well-formed witness per defect *)
@@ -91,6 +92,7 @@ Print Assumptions c16_leaf_instr_roundtrip_partial.
                         read so far equal the ORIGINAL ones with every operand that is not yet registered
                         (value id >= next, module-level name not in gk) replaced by its placeholder [Unres name];
                         undefined_values has an entry (of the right type) for each placeholder that occurs.
+                        G = the module scope (rs_glob), unchanged while a subroutine is read.
    hide / addps / fin : the operand as the reader sees it, the names added to undefined_values, registration. *)
 (* every instruction kind, in ANY reader state with correct scopes: operands registered, pending or never seen *)
 Theorem c16_instr_roundtrip : forall gn f vt fs next gk st i j,
@@ -111,18 +113,18 @@ Theorem c16_register_spec : forall name r t (self : option instr) st,
 Proof. exact register_spec. Qed.
 Print Assumptions c16_register_spec.
 (* one instruction keeps the function invariant (forward-reference patching included) *)
-Theorem c16_instr_step_nodef : forall gn f vt fs next gk bs is st i j,
-  fun_ctx gn f vt fs -> FInv gn f fs next gk bs is st -> instr_def i = None ->
+Theorem c16_instr_step_nodef : forall gn f vt fs G next gk bs is st i j,
+  fun_ctx gn f vt fs -> FInv gn f fs G next gk bs is st -> instr_def i = None ->
   Forall (wfr gn f) (instr_uses i) -> ctor_ok_instr f i = true ->
   (forall b, In b (instr_targets i) -> blookup (block_name f b) (rs_bmap st) = Some b) ->
   forallb (fun x => negb (is_terminator x)) is = true ->
   write_instruction cfg_fixed f i = Ok j ->
-  exists st', construct_instruction cfg_fixed vt j st = Ok st' /\ FInv gn f fs next gk bs (is ++ [i]) st' /\
+  exists st', construct_instruction cfg_fixed vt j st = Ok st' /\ FInv gn f fs G next gk bs (is ++ [i]) st' /\
               rs_bmap st' = rs_bmap st.
 Proof. exact instr_step_nodef. Qed.
 Print Assumptions c16_instr_step_nodef.
-Theorem c16_instr_step_def : forall gn f vt fs next gk bs is st i j n t,
-  fun_ctx gn f vt fs -> FInv gn f fs next gk bs is st -> instr_def i = Some (next, n, t) ->
+Theorem c16_instr_step_def : forall gn f vt fs G next gk bs is st i j n t,
+  fun_ctx gn f vt fs -> FInv gn f fs G next gk bs is st -> instr_def i = Some (next, n, t) ->
   wfr gn f (Loc next) -> ref_name f (Loc next) = n -> vref_ty f (Loc next) = t ->
   mem_str n (map b_name bs) = false ->
   Forall (wfr gn f) (instr_uses i) -> ctor_ok_instr f i = true ->
@@ -131,34 +133,81 @@ Theorem c16_instr_step_def : forall gn f vt fs next gk bs is st i j n t,
   forallb (fun x => negb (is_terminator x)) is = true ->
   write_instruction cfg_fixed f i = Ok j ->
   exists st', construct_instruction cfg_fixed vt j st = Ok st' /\
-              FInv gn f fs (Pos.succ next) gk bs (is ++ [i]) st' /\ rs_bmap st' = rs_bmap st.
+              FInv gn f fs G (Pos.succ next) gk bs (is ++ [i]) st' /\ rs_bmap st' = rs_bmap st.
 Proof. exact instr_step_def. Qed.
 Print Assumptions c16_instr_step_def.
 (* a whole block (seq_ok = its instructions are locally well-formed, value ids run from next to next') *)
-Theorem c16_block_roundtrip : forall gn f vt fs bm gk bs k next next' st j,
+Theorem c16_block_roundtrip : forall gn f vt fs G bm gk bs k next next' st j,
   fun_ctx gn f vt fs ->
   seq_ok gn f bm bs [] next (b_ins k) next' ->
-  FInv gn f fs next gk bs [] st -> rs_bmap st = bm ->
+  FInv gn f fs G next gk bs [] st -> rs_bmap st = bm ->
   blookup (b_name k) bm = Some (b_id k) ->
   mem_str (b_name k) (map b_name bs ++ map def_name (instrs_defs (flat_map b_ins bs ++ b_ins k))) = false ->
   write_block cfg_fixed f k = Ok j ->
-  exists st', construct_block cfg_fixed vt j st = Ok st' /\ FInv gn f fs next' gk (bs ++ [k]) [] st' /\
+  exists st', construct_block cfg_fixed vt j st = Ok st' /\ FInv gn f fs G next' gk (bs ++ [k]) [] st' /\
               rs_bmap st' = bm.
 Proof. exact block_roundtrip. Qed.
 Print Assumptions c16_block_roundtrip.
 (* the hypotheses above are inhabited: first two blocks of the forward-operand witness, x stays pending *)
 Theorem c16_reader_nonvacuous :
-  fun_ctx nv_gn nv_f nv_vt [] /\ FInv nv_gn nv_f [] 1 nv_gn [] [] nv_st /\
+  fun_ctx nv_gn nv_f nv_vt [] /\ FInv nv_gn nv_f [] nv_G 1 nv_gn [] [] nv_st /\
   exists j1 j2 st1 st2,
     write_block cfg_fixed nv_f (mk_block 1 "entry"%string [IJump 3]) = Ok j1 /\
     construct_block cfg_fixed nv_vt j1 nv_st = Ok st1 /\
     write_block cfg_fixed nv_f (mk_block 2 "b1"%string [IUnop 1 "y"%string I32 Neg (Loc 2); IExit]) = Ok j2 /\
     construct_block cfg_fixed nv_vt j2 st1 = Ok st2 /\
-    FInv nv_gn nv_f [] 2 nv_gn [mk_block 1 "entry"%string [IJump 3]; mk_block 2 "b1"%string [IUnop 1 "y"%string I32 Neg (Loc 2); IExit]] [] st2 /\
+    FInv nv_gn nv_f [] nv_G 2 nv_gn [mk_block 1 "entry"%string [IJump 3]; mk_block 2 "b1"%string [IUnop 1 "y"%string I32 Neg (Loc 2); IExit]] [] st2 /\
     rs_pend st2 = [("x"%string, I32)].
 Proof. split; [exact nv_ctx|]. split; [exact nv_finv | exact nv_blocks]. Qed.
 Print Assumptions c16_reader_nonvacuous.
 
+(* ---- one whole subroutine, unbounded (Proofs/C16_rd_wf.v, C16_rd_sub.v, C16_rd_mod.v).
+   MInv gn gk done st : the reader state between subroutines: the module-level names gk (a subset of all module-level
+   names gn) are registered in the module scope; the subroutines read so far are the ORIGINAL ones (done) with every
+   reference to a module-level name that is not yet registered replaced by its placeholder; undefined_values holds
+   exactly such names (ptr-typed).  Reading the JSON written for a well-formed, constructor-typed subroutine f whose
+   name is not registered yet registers it, consumes its parameters, the type pre-scan and all its blocks (loops,
+   shuffled block order, forward references, calls to later subroutines, recursion) and appends f itself. *)
+Theorem c16_function_roundtrip : forall gn gk done f st j,
+  MInv gn gk done st -> wf_func gn f = true -> ctor_ok_func f = true ->
+  In (f_name f) gn -> mem_str (f_name f) gk = false ->
+  write_subroutine cfg_fixed f = Ok j ->
+  exists st', construct_subroutine cfg_fixed j st = Ok st' /\ MInv gn (f_name f :: gk) (done ++ [f]) st'.
+Proof. exact function_read. Qed.
+Print Assumptions c16_function_roundtrip.
+(* registering a module-level name (external, variable, subroutine) keeps the module invariant *)
+Theorem c16_register_global : forall gn gk done n st,
+  MInv gn gk done st -> In n gn -> mem_str n gk = false ->
+  register cfg_fixed n (Glob n) Ptr None st = Ok (None, reg_state n (Glob n) Ptr st) /\
+  MInv gn (n :: gk) done (reg_state n (Glob n) Ptr st).
+Proof. exact reg_global. Qed.
+Print Assumptions c16_register_global.
+(* inhabited: the empty reader state satisfies MInv, and the forward-operand subroutine is read back exactly *)
+Theorem c16_function_nonvacuous :
+  (forall gn, MInv gn [] [] rst0) /\
+  exists j st', write_subroutine cfg_fixed nv_f = Ok j /\ construct_subroutine cfg_fixed j rst0 = Ok st' /\
+                MInv nv_gn ["pr"%string] [nv_f] st' /\ rs_funcs st' = [nv_f] /\ rs_pend st' = [].
+Proof. split; [exact MInv_init | exact nv_function]. Qed.
+Print Assumptions c16_function_nonvacuous.
+
+(* ---- THE PROPERTY, unbounded, for the repaired code (= /repo now): every well-formed module whose instructions
+   satisfy the constructor invariants of ppci.ir (operand types etc.; true of every live ppci module, the reader
+   re-runs the constructors) is reconstructed exactly by from_dict (to_dict m): externals, global variables with
+   their initial values, subroutines, blocks, instructions, types, constants, volatile flags. *)
+Theorem c16_roundtrip : forall m, wf_modul m = true -> ctor_ok_modul m = true -> roundtrip cfg_fixed m = Ok m.
+Proof. exact roundtrip_unbounded. Qed.
+Print Assumptions c16_roundtrip.
+(* all subroutines of a module in sequence (the fold used by c16_roundtrip) *)
+Theorem c16_subroutines_roundtrip : forall gn rest done gk st js,
+  MInv gn gk done st ->
+  (forall f, In f rest -> wf_func gn f = true /\ ctor_ok_func f = true /\ In (f_name f) gn /\ mem_str (f_name f) gk = false) ->
+  NoDup (map f_name rest) ->
+  mapM (write_subroutine cfg_fixed) rest = Ok js ->
+  exists st' gk', construct_subroutines cfg_fixed js st = Ok st' /\ MInv gn gk' (done ++ rest) st' /\
+                  (forall s, In s gk' <-> In s gk \/ In s (map f_name rest)).
+Proof. exact subs_fold. Qed.
+Print Assumptions c16_subroutines_roundtrip.
+
 Example c16_nonvacuous :
-  (10 <= List.length corpus)%nat /\ forallb (rt_ok cfg_fixed) all_witnesses = true.
-Proof. split; [exact corpus_nonempty | exact fixed_witnesses]. Qed.
+  forallb (fun m => wf_modul m && ctor_ok_modul m) corpus = true /\ (10 <= List.length corpus)%nat /\ forallb (rt_ok cfg_fixed) all_witnesses = true.
+Proof. split; [vm_compute; reflexivity|]. split; [exact corpus_nonempty | exact fixed_witnesses]. Qed.
